@@ -2,15 +2,22 @@
 import random
 from .. import core, gen, ref, pilgen as PG
 
-MODULES = ['DsdVerif.Props.C12', 'DsdVerif.Lemmas.PyObjKernel']
-GEN_FILES = ['Grammars', 'PyComplexS']
+MODULES = ['DsdVerif.Props.C12', 'DsdVerif.Lemmas.PyObjKernel', 'DsdVerif.Props.PyKernel']
+GEN_FILES = ['Grammars', 'PyComplexS', 'PyKernel', 'PyFuncs']
 THEOREM_NAMES = ['kernelTokens_total', 'resolve_kernel_inverse', 'resolve_kernel_structure', 'complementary_rotate', 'kernel_all_rotations',
                  'compName_involutive', 'kernel_text_roundtrip', 'kernel_text_all_rotations', 'resolveKernel_budget']
 THEOREMS = ['Dsd.C12.' + t for t in THEOREM_NAMES] + [
     # ComplexS.kernel_string as written in the source (Gen/PyComplexS.lean, regenerated on every run) is the model's kernelString
-    'Dsd.PyObj.Kernel.exec_kernel_string', 'Dsd.PyObj.Kernel.view_kernel']
+    'Dsd.PyObj.Kernel.exec_kernel_string', 'Dsd.PyObj.Kernel.view_kernel'] + ['Dsd.PyKernel.' + t for t in [
+    # resolve_kernel_loops as written in the source (Gen/PyKernel.lean, regenerated on every run) equals the model on every forest whose
+    # names are non-empty and do not begin with a star (all PIL names), and raises IndexError or agrees everywhere else
+    'py_resolve_kernel_loops_eq_model', 'py_resolve_kernel_loops_eq_model_or_index_error', 'py_ok_model_ok',
+    'model_differs_on_empty_name', 'model_differs_after_star_name', 'group_first_raises', 'kernel_forest_ok', 'py_resolve_kernel_inverse',
+    'py_resolve_kernel_structure', 'py_kernel_all_rotations', 'py_kernel_text_roundtrip', 'py_kernel_string_roundtrip']]
 ASSUMPTIONS = [
-    'resolve_kernel_loops is hand-modelled at token level (Model/Kernel.lean); kernel_string is transcribed statement by statement from the working tree '
+    'resolve_kernel_loops is transcribed statement by statement from the working tree (translator/pykernel.py -> Gen/PyKernel.lean) and proved equal to '
+    'the token-level model Model/Kernel.lean for every fuel and every forest of non-empty names that do not begin with a star '
+    '(PyKernel.py_resolve_kernel_loops_eq_model; the two excluded corners are kernel-checked differences); kernel_string is transcribed statement by statement from the working tree '
     '(Gen/PyComplexS.lean) and proved equal to the model\'s kernelString for every object whose sequence and structure are equally long '
     '(PyObj.Kernel.exec_kernel_string); the '
     'character level goes through the model of pyparsing over the regenerated PIL grammar (correspondence with the real parser)',
@@ -198,6 +205,9 @@ def run(res, proof):
         core.compare_streams(res, 'kernel', lines, impl, model)
     except core.DriverBroken as e:
         proof.problem('driver', str(e))
+    # resolve_kernel_loops as translated from the working tree (Gen/PyKernel.lean) against the real function, on parsed and malformed forests
+    from .pykernel_stream import source_derived_pykernel
+    source_derived_pykernel(res, proof)
     for l in lines[:6]:
         res.sample(l if len(l) < 200 else l[:200])
 
